@@ -10,7 +10,7 @@ assert sh("git -C /repo diff --quiet").returncode == 0, "/repo dirty"
 for f in kf['findings']:
     if ids and f['property'] not in ids: continue
     exe = "/verif/target/debug/vtrace" if f['property'] == 'C20' else "/verif/target/debug/vcheck"
-    if f['property'] == 'C20':
+    if f['property'] == 'C20' or f['property'].endswith('-tracing'):
         f['gen_version'] = int(sh('/verif/target/debug/vcheck genversion').stdout)  # replayed as is: `vtrace` has no `find`
         continue
     try:
